@@ -38,3 +38,18 @@ claim('C10', 'exploration',
       'LogoutRequest and LogoutResponse are minted conforming or wrong in one respect, unsigned or signed by a trusted / untrusted key, tampered, wrapped (new or same ID), with relocated or foreign signatures, delivered raw or DEFLATE, to the right or the wrong endpoint, with checking on or off and issuer configured or not. Accept implies the logout model; a single fault yields the typed error naming it; the flag is false with checking off and otherwise true only for an honoured root signature whose fields equal the issue-log unit; a bad root signature is never downgraded.',
       'trusted: stub IdP; error identity by Go type and SAML name',
       'DESIGN.md 4 C10')
+claim('C07', 'fault_enumeration',
+      'deterministic simulation: attacker-encrypted plaintexts in flight, SP clock enumerated on the SP certificate bounds, faulty key stores',
+      'Genuine encrypted responses and attacker-encrypted plaintexts (forged, attacker-signed, cut from a signed Response, non-assertion, garbage) are delivered directly, beside a genuine assertion or nested, with the recipient certificate absent / the SP\'s / foreign, to an SP keyed by field / TLS field / setter / both whose clock is placed on its own certificate\'s NotBefore/NotAfter +/- {0,1ns,1s} with ValidateEncryptionCert on and off, and whose key store may hand out an empty or unparsable certificate or fail. Oracle: conservation over the issue log; nested or foreign-recipient => error; option on => accepted only inside the window with a parsable certificate; option off => as the plaintext twin.',
+      'trusted: stub IdP signer/encryptor',
+      'DESIGN.md 4 C07')
+claim('C09', 'fault_enumeration',
+      'deterministic simulation: in-flight corruption enumerated over message offsets and a hostile ciphertext grid, into every decoding entry point',
+      'Genuine messages of every kind are truncated, bit-flipped, shortened or extended at enumerated offsets of the XML, base64 and DEFLATE bytes and delivered to all six inbound entry points under normal, bare (empty store, no keys, nil clock), failing-store, skip and key-less SP configurations; every ciphertext length 0..80 per algorithm identifier, every CBC last-byte value, all-zero blocks, wrapped keys of every length and wrong sizes, bad base64 and missing parts are fed to DecryptBytes / Decrypt / DecryptSymmetricKey directly and through an unsigned Response; deep and wide documents. Oracle: normal return, exactly one of result/error for pointer results; a recovered panic or a worker crash (journal) is the violation.',
+      'thorough tier enumerates every offset; quick samples a stride; universality over all byte strings is sampled',
+      'DESIGN.md 4 C09')
+claim('C11', 'fault_enumeration',
+      'deterministic simulation (thin fit): two-party encrypt->decrypt round trip enumerated over the algorithm grid, plaintext lengths and SP key configuration history',
+      'The IdP stub encrypts to the SP certificate under every data algorithm x key transport x digest x EncryptedKey placement x recipient certificate x SP key configuration (field, TLS field, setter, both; fresh or after restart); per cell DecryptBytes must return the exact bytes for plaintext lengths 0..33 (all residues mod 16, zero-byte tails) plus large ones, Decrypt must unmarshal, and the encrypted Response must give the same outcome, data and flags as its plaintext twin. What decides is enumeration against byte equality; the simulator contributes the second party and the configuration history.',
+      'trusted: stub encryptor written from crypto/*',
+      'DESIGN.md 4 C11')
